@@ -167,24 +167,31 @@ def check(tier, seed):
     h.cleanup(r); h.cleanup(fresh)
     # (5) many entry points: every top-level function of a program with dozens of them is found by name (the entry table grows
     # through several capacities; names chosen so that many collide), prepared and executed on one machine, in a seeded order
-    names = ["e%d" % i for i in range(40)] + ["on_key", "on_tick", "on_exit", "main2", "a", "b", "ab", "ba", "entry_with_a_rather_long_name_%d" % rng.range(0, 9)] + \
-            ["q" + "".join("az" if (i >> k) & 1 else "bY" for k in range(4)) for i in range(12)]
-    msrc = "".join("func %s(x : int) -> int { x + %d }\n" % (nm, 10 * i) for i, nm in enumerate(names)) + "func main() -> int { 0 }\n"
-    order = list(range(len(names))); rng.shuffle(order)
-    order = order[:60]
-    r = h.run(src=msrc, trace=False, calls=";".join("%s:%d" % (names[i], i % 7) for i in order))
-    ex = [l for l in r["lines"] if l.startswith("exec ")]
-    pr = [l for l in r["lines"] if l.startswith("prepare ")]
-    stats["entry_points_called"] = len(ex)
-    want = ["I%d" % (i % 7 + 10 * i) for i in order]
-    got = [(re.search(r"result=(\S+)", l) or [None, "?"])[1] for l in ex]
-    if (got != want or any(not l.startswith("prepare 0") for l in pr)) and viol < 3:
-        viol += 1
-        badk = next((k for k in range(len(order)) if k >= len(got) or got[k] != want[k]), None)
-        rep.violation("c15_entry_lookup", "# an entry point of a program with %d top-level functions was not found / ran another function: call %s -> %s (expected %s)\n# prepare lines: %s\n# stderr: %s\n%s"
-                      % (len(names) + 1, names[order[badk]] if badk is not None else "?", got[badk] if badk is not None and badk < len(got) else "missing", want[badk] if badk is not None else "?",
-                         [l for l in pr if not l.startswith("prepare 0")][:3], r["err"][-300:], msrc), True)
-    h.cleanup(r)
+    stats["entry_points_called"] = 0
+    for pi, (prefix, nchain) in enumerate([("", 0)] + [(pf, nc) for pf in ("q", "r", "s", "t", "u", "v") for nc in (12, 20, 32, 48)]):
+        if prefix == "":
+            names = ["e%d" % i for i in range(40)] + ["on_key", "on_tick", "on_exit", "main2", "a", "b", "ab", "ba", "entry_with_a_rather_long_name_%d" % rng.range(0, 9)]
+        else:
+            # 32 names with ONE value of the identifier hash (two-character blocks "az" / "bY" contribute equally): one long probe
+            # chain that every growth of the table has to move; a different prefix puts the chain elsewhere in the table
+            names = [prefix + "".join("az" if (i >> k) & 1 else "bY" for k in range(6)) for i in range(nchain)]
+        msrc = "".join("func %s(x : int) -> int { x + %d }\n" % (nm, 10 * i) for i, nm in enumerate(names)) + "func main() -> int { 0 }\n"
+        order = list(range(len(names))); rng.shuffle(order)
+        order = order[:60]
+        r = h.run(src=msrc, trace=False, calls=";".join("%s:%d" % (names[i], i % 7) for i in order))
+        ex = [l for l in r["lines"] if l.startswith("exec ")]
+        pr = [l for l in r["lines"] if l.startswith("prepare ")]
+        stats["entry_points_called"] += len(ex)
+        want = ["I%d" % (i % 7 + 10 * i) for i in order]
+        got = [(re.search(r"result=(\S+)", l) or [None, "?"])[1] for l in ex]
+        if (got != want or any(not l.startswith("prepare 0") for l in pr)) and viol < 3:
+            viol += 1
+            badk = next((k for k in range(len(order)) if k >= len(got) or got[k] != want[k]), None)
+            rep.violation("c15_entry_lookup_%d" % pi, "# an entry point of a program with %d top-level functions was not found / ran another function: call %s -> %s (expected %s)\n# prepare lines: %s\n# stderr: %s\n%s"
+                          % (len(names) + 1, names[order[badk]] if badk is not None else "?", got[badk] if badk is not None and badk < len(got) else "missing", want[badk] if badk is not None else "?",
+                             [l for l in pr if not l.startswith("prepare 0")][:3], r["err"][-300:], msrc), True)
+        h.cleanup(r)
+    r = None
     h.close()
     stats["diagnostic_owner_cases"] = nown
     rep.cov.update(trusted_base=["Lean 4.33 kernel", "axioms: propext, Classical.choice, Quot.sound", "h_vm.c (call lists, pre-compiles) + comparator", "gcc/ASan"],
